@@ -11,6 +11,9 @@ package harness
 import (
 	"bytes"
 	"fmt"
+	"go.dedis.ch/kyber/v4/compatible/compatiblemod"
+	"go.dedis.ch/kyber/v4/util/random"
+	"math/big"
 	"sync"
 	"testing"
 
@@ -191,6 +194,25 @@ func c20SchemeMethods() []roMethod {
 	ms = append(ms, roMethod{"suite.RandomStream", func() string {
 		b := make([]byte, 16)
 		ed.RandomStream().XORKeyStream(b, b)
+		return "ok"
+	}})
+	// ONE stream value shared by all goroutines (util/random.New: "can be used in multiple threads"),
+	// drawn from directly and through Pick
+	shared := random.New()
+	suiteStream := ed.RandomStream()
+	ms = append(ms, roMethod{"random.New() shared stream: XORKeyStream", func() string {
+		b := make([]byte, 48)
+		shared.XORKeyStream(b, b)
+		return "ok"
+	}}, roMethod{"suite.RandomStream() shared stream: Scalar.Pick+Point.Pick", func() string {
+		_ = ed.Scalar().Pick(suiteStream)
+		_ = ed.Point().Pick(suiteStream)
+		return "ok"
+	}}, roMethod{"random.Bits/Int on the shared stream", func() string {
+		_ = random.Bits(130, true, shared)
+		if v := random.Int(compatiblemod.FromBigInt(new(big.Int).Set(ordEd25519)), shared).ToBigInt(); v.Sign() < 0 || v.Cmp(ordEd25519) >= 0 {
+			return "out of range"
+		}
 		return "ok"
 	}})
 	// public polynomial
